@@ -262,8 +262,7 @@ theorem can_of_fresh_flexible {now : Int} {d : Dt} (hf : d.fixed = false) (h0 : 
     (h1 : d.start ≤ now) (h2 : now ≤ d.fin) : canBeTriggered now d = true := by
   have h3 : ¬ now < d.start := by omega
   have h4 : ¬ now > d.fin := by omega
-  have h5 : ¬ d.fin < now := by omega
-  simp [canBeTriggered, isExpired, isInEffect, isTriggered, hf, h0, h3, h4, h5]
+  simp [canBeTriggered, isExpired, isInEffect, isTriggered, hf, h0, h3, h4]
 
 /-- **flexible_trigger.**  A flexible downtime takes effect at the first non-OK result, or on an already
     existing problem, inside `[start, end]`:
